@@ -95,6 +95,16 @@ CHECKS = [
          note='Trusted: vf/oracles/packref.py written from the docstring layout; codec run through the pyx transliterator. Pair '
               'orientation in cis/trans records and float16 truncation vs rounding are not fixed by the layout text; either accepted.',
          technique='round-trip + differential (independent reference codec) property-based testing; regression corpus of published packs'),
+    dict(id='C20',
+         text='Generated molecules both toolkits accept (rebuilt with drawn numbering/insertion order, Kekule or aromatic, drawn 2D '
+              'coordinates, mapping on/off) are pushed through to_rdkit_molecule / from_rdkit_molecule: per-atom payload (element, '
+              'isotope, charge, radical, total H, map number, coordinates), chirality-aware equivalence with RDKit\'s own reading '
+              'of the SMILES, atom-wise and canonical-string identity of the round trip, and the same for RDKit-originated corpus '
+              'molecules (also with hydrogens added by RDKit).',
+         note='Trusted: RDKit canonical SMILES / chirality-aware substructure matching and chython canonical SMILES as the two judges '
+              'named by the property; molecules where the aromaticity models or RDKit sanitisation rewrite the structure are '
+              'skipped and counted.',
+         technique='round-trip and differential property-based testing against RDKit'),
     dict(id='C13',
          text='Model-based history search: Kekule seed molecules followed by 3-14 drawn operations (add/delete atom and bond, '
               'committed and rolled-back transactions, remap, copy, substructure, union, in-place union, clean_stereo, label, '
